@@ -385,6 +385,25 @@ def matching_grid(tier, seed):
                 c = ('crash', type(e).__name__)
             if c != want:
                 bad(f'match_sequence_type differs from SequenceType matching for {kind} tests', expr=expr, type=text, want=want, got=repr(c)[:80])
+    # kind tests with arguments inside array and map tests (these go through the string form of the sequence type, not through the token of the test)
+    for expr, want in (("[/a/processing-instruction()] instance of array(processing-instruction('pi'))", True), ('[/a/processing-instruction()] instance of array(processing-instruction("pi"))', True),
+                       ("[/a/processing-instruction()] instance of array(processing-instruction(pi))", True), ("[/a/processing-instruction()] instance of array(processing-instruction('other'))", False),
+                       ("[/a/processing-instruction()] instance of array(processing-instruction(other))", False), ("[/a/processing-instruction()] instance of array(processing-instruction())", True),
+                       ("map{'k': /a/processing-instruction()} instance of map(xs:string, processing-instruction('pi'))", True),
+                       ("map{'k': /a/processing-instruction()} instance of map(xs:string, processing-instruction('other'))", False),
+                       ("[/a/@k] instance of array(attribute(k))", True), ("[/a/@k] instance of array(attribute(j))", False), ("[/a/b] instance of array(element(b))", True),
+                       ("[/a/b] instance of array(element(c))", False), ("[/a/comment()] instance of array(comment())", True), ("[/a/comment()] instance of array(text())", False),
+                       ("[/] instance of array(document-node(element(a)))", True), ("[/] instance of array(document-node(element(b)))", False),
+                       ("[/a] instance of array(document-node(element(a)))", False), ("/a instance of document-node(element(b))", False), ("/a instance of document-node()", False),
+                       ("[(/a, /a/b)] instance of array(element()+)", True), ("[(/a, /a/@k)] instance of array(element()+)", False),
+                       ("map{1: [/a/processing-instruction()]} instance of map(xs:integer, array(processing-instruction('pi')))", True)):
+        n += 1
+        a = _eval(expr)
+        if a != ('ok', want):
+            bad("'instance of' differs from SequenceType matching for a kind test nested in an array or map test", expr=expr, want=want, got=repr(a)[:80])
+        t = _eval(expr.replace(' instance of ', ' treat as '))
+        if (t[0] == 'ok') != want and not (t == ('err', 'XPDY0050') and not want):
+            bad("'treat as' disagrees with SequenceType matching for a kind test nested in an array or map test", expr=expr, want=want, got=repr(t)[:80])
     fails = [{'key': k, 'items': it[:5], 'count': len(it), 'what': f'{k}: e.g. {it[0]}'} for k, it in fam.items()]
     return {'evaluations': n, 'distinct': n, 'exhaustive': False,
             'scope': f'{len(SEQ_TYPES)} sequence types (18 atomic names, node kind tests with names, document-node(element()), 13 function tests, map and array tests, '
